@@ -807,3 +807,86 @@ Proof.
   intros [= <-]. rewrite merge_pointwise. unfold from_headers.
   now rewrite (from_header_map_md t st F k).
 Qed.
+
+(* ------------------------------------------------------------------ literal keys and values *)
+(* a key made by from_static is the literal itself, typed by its suffix; it panics exactly on an
+   invalid literal or a suffix of the other kind *)
+Theorem mk_key_static_spec bin raw :
+  (forall k, mk_key_static bin raw = Val k -> k = raw /\ bin_suffix k = bin /\ hn_static_ok raw = true) /\
+  (mk_key_static bin raw = Panic <-> hn_static_ok raw = false \/ bin_suffix raw = negb bin).
+Proof.
+  unfold mk_key_static. destruct (hn_static_ok raw); [|split; [discriminate|split; auto]].
+  destruct (Bool.eqb (bin_suffix raw) bin) eqn:E.
+  - apply eqb_prop in E. split; [intros k [= <-]; auto|]. split; [discriminate|].
+    intros [H|H]; [discriminate|]. rewrite E in H. now destruct bin.
+  - split; [discriminate|]. split; [|reflexivity]. intros _. right.
+    destruct (bin_suffix raw), bin; try reflexivity; discriminate.
+Qed.
+
+(* a literal without a double quote (34) that from_static accepts is also what from_bytes gives *)
+Lemma hn_static_char_norm b : hn_static_char b = true -> b <> 34 -> hn_char b = Some b.
+Proof.
+  unfold hn_static_char, hn_char. intros H Hq.
+  assert (L : to_lower b = b).
+  { unfold to_lower, is_upper. destruct ((65 <=? b) && (b <=? 90)) eqn:E; [|reflexivity].
+    exfalso. unfold is_lower, is_digit, hn_special in H. cbn [existsb] in H. lia. }
+  rewrite L. replace (b =? 34) with false in H by lia. rewrite orb_false_r in H. now rewrite H.
+Qed.
+
+Theorem static_key_is_from_bytes bin raw k :
+  mk_key_static bin raw = Val k -> existsb (N.eqb 34) raw = false -> mk_key bin raw = Some k.
+Proof.
+  intros H Q. destruct (mk_key_static_spec bin raw) as [S _]. destruct (S k H) as (-> & B & OK).
+  unfold mk_key. assert (N : hn_norm raw = Some raw).
+  { unfold hn_norm, hn_static_ok in *. destruct raw as [|b r]; [discriminate|].
+    apply andb_true_iff in OK as [OK1 OK2]. rewrite OK1.
+    revert OK2 Q. generalize (b :: r). intros l. induction l as [|x l IH]; [reflexivity|].
+    cbn [forallb existsb hn_chars]. intros H1 H2. apply andb_true_iff in H1 as [Hx Hl].
+    apply orb_false_iff in H2 as [Qx Ql].
+    rewrite (hn_static_char_norm x Hx) by (intros ->; discriminate). now rewrite (IH Hl Ql). }
+  rewrite N, B, eqb_reflx. reflexivity.
+Qed.
+
+(* a literal binary value is kept as written and decodes to what its base64 text denotes;
+   from_static panics exactly on text that does not decode *)
+Theorem bin_from_static_spec v :
+  (forall v', bin_from_static v = Val v' -> v' = v /\ exists b, bin_decode v' = Some b) /\
+  (bin_from_static v = Panic <-> bin_decode v = None) /\
+  (forall pad b, bytes_ok b = true ->
+     bin_from_static (enc pad b) = Val (enc pad b) /\ bin_decode (enc pad b) = Some b).
+Proof.
+  unfold bin_from_static, bin_decode. split; [|split].
+  - destruct (dec v) as [b|] eqn:E; [|discriminate]. intros v' [= <-]. rewrite E. eauto.
+  - destruct (dec v); split; try discriminate; reflexivity.
+  - intros pad b Hb. now rewrite (dec_enc pad b Hb).
+Qed.
+
+Theorem ascii_from_static_spec v :
+  (forall v', ascii_from_static v = Val v' -> v' = v /\ ascii_from_bytes v = Some v) /\
+  (ascii_from_static v = Panic <-> forallb hv_static_byte v = false).
+Proof.
+  unfold ascii_from_static. destruct (forallb hv_static_byte v) eqn:E.
+  - split; [|split; discriminate]. intros v' [= <-]. split; [reflexivity|].
+    unfold ascii_from_bytes, mk_hv. replace (hv_ok v) with true; [reflexivity|]. symmetry.
+    unfold hv_ok. rewrite forallb_forall in *. intros x Hx. specialize (E x Hx).
+    unfold hv_static_byte in E. unfold hv_byte_ok. lia.
+  - split; [discriminate|]. split; reflexivity.
+Qed.
+
+(* writing with a literal key goes under exactly that name, of the kind of the call *)
+Theorem insert_static_spec bin m raw v :
+  (forall m', insert_static bin m raw v = Val m' ->
+     bin_suffix raw = bin /\ forall k, hm_get_all m' k = if bytes_eqb raw k then [v] else hm_get_all m k) /\
+  (forall m', append_static bin m raw v = Val m' ->
+     bin_suffix raw = bin /\ forall k, hm_get_all m' k = hm_get_all m k ++ (if bytes_eqb raw k then [v] else [])) /\
+  (insert_static bin m raw v = Panic <-> mk_key_static bin raw = Panic) /\
+  (append_static bin m raw v = Panic <-> mk_key_static bin raw = Panic).
+Proof.
+  unfold insert_static, append_static. destruct (mk_key_static_spec bin raw) as [S _].
+  destruct (mk_key_static bin raw) as [k|] eqn:E.
+  - destruct (S k eq_refl) as (-> & B & _).
+    split; [intros m' [= <-]; split; [exact B|intros k; apply get_all_insert]|].
+    split; [intros m' [= <-]; split; [exact B|intros k; apply get_all_append]|].
+    split; split; discriminate.
+  - split; [discriminate|]. split; [discriminate|]. split; split; reflexivity.
+Qed.
